@@ -1,4 +1,5 @@
 mod c04;
+mod c07;
 mod c11;
 mod c14;
 mod interp;
@@ -30,6 +31,7 @@ fn main() {
             let mut rng = util::Rng::new(seed);
             match prop {
                 "C04" => c04::generate(&mut s, tier, &mut rng),
+                "C07" => c07::generate(&mut s, tier, &mut rng),
                 "C11" => c11::generate(&mut s, tier, &mut rng),
                 "C14" => c14::generate(&mut s, tier, &mut rng),
                 _ => {
